@@ -91,7 +91,7 @@ pub fn check_on(c: &Case, ctx: &mut Ctx, ind: &mut Ind, maxi: &mut Option<Ind>) 
             let x = c.xs[i].0;
             fp.f(x);
             big = big.max(x.abs());
-            (ind.next_scalar(x), RawBar::flat(x, 0.0))
+            (if crate::tele::scalar_here() { ind.next_bar(&RawBar::flat(x, 0.0)) } else { ind.next_scalar(x) }, RawBar::flat(x, 0.0))
         } else {
             let mut b = c.bars[i];
             // mixed use of both paths on one instance (tele.rs): this step goes through next(close); the
